@@ -989,6 +989,10 @@ func NewEnum(config EnumConfig) *Enum {
 	if gt.values, gt.err = gt.defineEnumValues(config.Values); gt.err != nil {
 		return gt
 	}
+	// Build both lookup tables now: filling them on first use would be an
+	// unsynchronised write when the schema serves concurrent requests.
+	gt.getValueLookup()
+	gt.getNameLookup()
 
 	return gt
 }
